@@ -30,7 +30,7 @@ from . import _combiner as C
 LEVEL = "model_checking"
 MANIFEST = {
     "technique": "TLA+ specs Combiner (merge plan with save/crash/load, parameters chosen in Init) and GenomePartition (call/return relation) checked by TLC; state-graph replay (B1) and TLC trace validation (B2) of the real VariantDatasetCombiner under a lineage-recording fake hl; TLC-judged call/return conformance (B3) of calculate_even_genome_partitioning",
-    "text": "All interleavings of step/save/crash/load for every parameter combination of a bounded space (GVCF counts, input dataset sample counts, branch factors, batch sizes, with/without external header) explored exhaustively by TLC: every input is in exactly one live dataset at every step for both the in-memory and the saved plan, the output is a permutation of the inputs, each step decreases the variant, and the run terminates under fairness. Every edge of the state graph is replayed on the real class (real combine.py merge functions, real plan (de)serialisation incl. locus intervals) and larger random runs incl. the real run() loop are accepted by the spec. The genome partitioning is called for interval sizes around every L/k, k<=64, on all GRCh37/GRCh38 primary contigs and each result is judged by TLC.",
+    "text": "All interleavings of step/save/crash/load for every parameter combination of a bounded space (GVCF counts, input dataset sample counts, branch factors, batch sizes, with/without external header) explored exhaustively by TLC: every input is in exactly one live dataset at every step for both the in-memory and the saved plan, the output is a permutation of the inputs, each step decreases the variant, and the run terminates under fairness. Every edge of the state graph is replayed on the real class (real combine.py merge functions, real plan (de)serialisation incl. locus intervals) and larger random runs incl. the real run() loop are accepted by the spec. The genome partitioning is called for interval sizes around every L/k, k<=64 (+-2), the two defaults and every size in a band for the mitochondrial contig, on the GRCh37/GRCh38 primary contigs (all 50 in the thorough tier), and each result is judged by TLC against 'covers 1..L exactly once, no interval longer than requested'.",
     "note": "Trusts TLC and the fake hl in checks/_combiner.py (tables, matrix tables, expressions, IR nodes, VariantDataset/read_vds/write, file system are fakes that propagate lineage; uuid4 is replaced by a counter, i.e. assumed fresh). NOT covered: the Hail engine itself (that merged rows/entries are right), GVCF import expressions, calculate_new_intervals (replaced by a recorder), dtype() parsing of the matrix types inside save/load (table lookup; interval and locus (de)serialisation is the real code), crashes in the middle of a step, new_combiner() argument handling. floor(log(n, bf)) is a parameter of the spec fed with the platform's values.",
     "design_ref": "DESIGN.md section 5, C38; section 7 item 8",
 }
@@ -130,8 +130,8 @@ def _graph_cfgs(ctx):
     if ctx.quick:
         return [dict(maxg=2, vds=[(3, 1)], bfs=[2], batches=[1, 2], exts=[False], maxepoch=3, maxcrash=1),
                 dict(maxg=3, vds=[(), (1, 2, 5)], bfs=[2, 3], batches=[1], exts=[False, True], maxepoch=2, maxcrash=1)]
-    return [dict(maxg=4, vds=[(), (1,), (3, 1), (1, 2, 5)], bfs=[2, 3], batches=[1, 2], exts=[False], maxepoch=3, maxcrash=1),
-            dict(maxg=3, vds=[(), (2,), (2, 2, 2, 9)], bfs=[2, 3, 4], batches=[1], exts=[False, True], maxepoch=3, maxcrash=1)]
+    return [dict(maxg=4, vds=[(), (1, 2, 5)], bfs=[2, 3], batches=[1, 2], exts=[False], maxepoch=3, maxcrash=1),
+            dict(maxg=3, vds=[(2, 2, 2, 9)], bfs=[2, 3, 4], batches=[1], exts=[False, True], maxepoch=3, maxcrash=1)]
 
 
 def _graph_jobs(ctx, wd):
@@ -147,6 +147,13 @@ def _run_job(wd, job, workers, seed=None):
 def _collect_spec(ctx, job, res):
     tag, what, consts, cov, dump = job[:5]
     ctx.add_tlc(res, what)
+    if len(job) > 5 and "simulate" in job[5]:
+        m = re.search(r"The number of states generated: (\d+)", res.out)
+        t = re.findall(r"(\d+) traces generated", res.out)
+        if not m or not t or int(m.group(1)) == 0:
+            raise RuntimeError("simulation produced no states")
+        ctx.cov["simulation"] = {"states_checked": int(m.group(1)), "traces": int(t[-1]), "depth": job[5].get("depth")}
+        ctx.cov["transitions"] += int(m.group(1))
     if cov and not res.violations:
         # vacuity guard.  (vlib.tlc's coverage regex does not match actions whose body starts with LET: TLC prints
         # "<StepGvcfs line .. of module Combiner (119 3 130 48)>: d:t" for those, so the output is parsed here.)
